@@ -49,8 +49,8 @@ TIERS = {
             dict(mode="tokens", n=2, frames=["GP", "GPI", "W", "GEM", "HH"], lists=["default"]),
             dict(mode="tokens", n=3, frames=["G", "H", "SP"], lists=["default"]),
             dict(mode="tokens", n=3, frames=["GS", "H"], lists=["full"], extra=NESTED),
-            dict(mode="tokens", n=2, frames=["GS", "H"], lists=["full"], pres=ZIP_PRES),
-            dict(mode="tokens", n=2, frames=["G", "H"], lists=["default"], pres=DIR_PRES),
+            dict(mode="tokens", n=2, frames=["GS", "H"], lists=["full"], pres=ZIP_PRES[1:]),       # ("none" = the plans above)
+            dict(mode="tokens", n=2, frames=["G", "H"], lists=["default"], pres=DIR_PRES[1:]),
         ],
         design_only=[],
     ),
@@ -67,8 +67,8 @@ TIERS = {
                  lists=["full"], extra=NESTED),
             dict(mode="tokens", n=4, frames=["G"], lists=["default"]),
             dict(mode="tokens", n=4, frames=["GS"], lists=["full"], extra=NESTED),
-            dict(mode="tokens", n=3, frames=["GS", "H"], lists=["full"], pres=ZIP_PRES + DIR_PRES[1:]),
-            dict(mode="tokens", n=3, frames=["G", "GP", "H"], lists=["default"], pres=DIR_PRES),
+            dict(mode="tokens", n=3, frames=["GS", "H"], lists=["full"], pres=ZIP_PRES[1:] + DIR_PRES[1:]),
+            dict(mode="tokens", n=3, frames=["G", "GP", "H"], lists=["default"], pres=DIR_PRES[1:]),
         ],
         design_only=[dict(mode="chars", n=5, frames=["G", "SP"], lists=["default"]),
                      dict(mode="chars", n=6, frames=["H"], lists=["default"])],
